@@ -10,7 +10,7 @@
 From Coq Require Import ZArith String List Bool.
 From FV Require Import Model.Peg Model.ParserStrings Model.ParserAst Model.ParserActions Model.Parser Judge.Wire
      Judge.JParser Proofs.ParserRoundTrip Proofs.ParserRoundTripEnum Proofs.ParserRoundTripStruct
-     Proofs.ParserRoundTripConst Proofs.ParserRoundTripFile Proofs.ParserFragmentCheck.
+     Proofs.ParserRoundTripConst Proofs.ParserRoundTripService Proofs.ParserRoundTripFile Proofs.ParserFragmentCheck.
 Import ListNotations.
 Open Scope Z_scope.
 
@@ -91,6 +91,36 @@ Definition dec_cv (t : tok) : option cv_spec :=
   | _ => None
   end.
 
+Definition dec_ow (t : tok) : option ow_spec :=
+  match t with TL [TI 0] => Some OW_none | TL [TI 1; TB W] => Some (OW_oneway W) | _ => None end.
+Definition dec_ret (t : tok) : option ret_spec :=
+  match t with
+  | TL [TI 0; TB W] => Some (R_void W)
+  | TL [TI 1; ty; TB W] => match dec_ty ty with Some x => Some (R_type x W) | None => None end
+  | _ => None
+  end.
+Definition dec_fn_tail (t : tok) : option fn_tail :=
+  match t with
+  | TL [TI 0; TB W2] => Some (FN_plain W2)
+  | TL [TI 1; TB W2; TI sep; TB W3] => Some (FN_sep W2 sep W3)
+  | TL [TI 2; TB W2; TB W4; TB W5; TL fs; TB g; sep; TB W3] =>
+    match omap2 dec_fd fs, sep with
+    | Some fs', TL [] => Some (FN_throws W2 W4 W5 fs' g None W3)
+    | Some fs', TL [TI s] => Some (FN_throws W2 W4 W5 fs' g (Some s) W3)
+    | _, _ => None
+    end
+  | _ => None
+  end.
+Definition dec_fn (t : tok) : option fn_spec :=
+  match t with
+  | TL [ow; r; TI c; TB nm; TB g; TB w; TL args; tl] =>
+    match dec_ow ow, dec_ret r, omap2 dec_fd args, dec_fn_tail tl with
+    | Some ow', Some r', Some args', Some tl' => Some (mk_fn ow' r' c nm g w args' tl')
+    | _, _, _, _ => None
+    end
+  | _ => None
+  end.
+
 Definition dec_kind (k : Z) : sl_kind := if k =? 1 then K_exception else if k =? 2 then K_union else K_struct.
 
 Definition dec_xdecl (t : tok) : option xdecl :=
@@ -105,12 +135,15 @@ Definition dec_xdecl (t : tok) : option xdecl :=
     | Some ty', Some cv' => Some (X_const (mk_cn g1 ty' c nm g2 g3 cv' g4 w))
     | _, _ => None
     end
+  | TL [TI 4; TB g1; TI c; TB nm; TB w1; TB w2; TL fns; TB g3; TB w] =>
+    match omap2 dec_fn fns with Some fns' => Some (X_service (mk_sv g1 c nm w1 w2 fns' g3 w)) | None => None end
   | _ => None
   end.
 
 Definition kind_count (ds : list xdecl) : Z :=
-  (* which declaration kinds the case contains, as a bit set: typedef 1, enum 2, struct-like 4, const 8 *)
-  fold_left (fun acc d => Z.lor acc (match d with X_typedef _ => 1 | X_enum _ => 2 | X_struct _ => 4 | X_const _ => 8 end)) ds 0.
+  (* which declaration kinds the case contains, as a bit set: typedef 1, enum 2, struct-like 4, const 8, service 16 *)
+  fold_left (fun acc d => Z.lor acc (match d with X_typedef _ => 1 | X_enum _ => 2 | X_struct _ => 4 | X_const _ => 8
+                                           | X_service _ => 16 end)) ds 0.
 
 (** case: [text; w0; [declaration...]; observed code; observed tree]
     tags: 5000 + bit set of the declaration kinds present; -1 = rejected; -2 = the description does not
